@@ -47,7 +47,7 @@ import z3
 from pyvc import contracts as C
 from pyvc import extract
 from pyvc import models_ltl as ML
-from pyvc.interp import BuiltinFn, Env, Frame, FuncVal, SymRaise
+from pyvc.interp import BuiltinFn, Env, Frame, FuncVal, SpecFn, SymRaise
 from pyvc.values import PDict, PList, PObj, PSet, PyvcError, SSeq, SV, tobool, tonum
 
 from .common import repo_class
@@ -278,6 +278,19 @@ class driver_frame:
         return False
 
 
+SMALL = 3
+
+
+def check2(eng, name, goal, last, **kw):
+    """Obligation over traces of every length.  A first instance restricted to short traces (last <= SMALL) is discharged
+    before the general one so that, when the obligation is refuted, the first counter-model is small enough to replay."""
+    goal = _z(goal)
+    ok = eng.check(name, z3.Implies(_z(last) <= SMALL, goal), **kw)
+    if ok:
+        ok = eng.check(name, goal, **kw)
+    return ok
+
+
 def sym_pos(eng):
     """symbolic trace: last >= 0, 0 <= i <= last"""
     last = eng.fresh_int("last")
@@ -320,7 +333,9 @@ def _py_until4(L, R):
 def _py_refine_violation(v, s, clause):
     """text if value v does not refine reference s for the given clause ('*' = all)"""
     want = clause_key(clause)
-    if want in ("*", "truthy_iff_spec_truthy", "spec_truthy_only_if_truthy", "truthy_only_if_spec_truthy", "returns-spec") and (v >= PT) != (s >= PT):
+    if want not in ("*", "truthy_iff_spec_truthy", "FALSE_only_if_spec_FALSE", "TRUE_only_if_spec_TRUE", "returns-spec"):
+        return None
+    if want in ("*", "truthy_iff_spec_truthy", "returns-spec") and (v >= PT) != (s >= PT):
         return f"verdict {NAMES[v]} but the strong finite-trace semantics gives {NAMES[s]} (truthiness differs)"
     if want in ("*", "FALSE_only_if_spec_FALSE", "returns-spec") and v == FALSE and s != FALSE:
         return f"verdict FALSE (would reject now) but the reference is {NAMES[s]}: a continuation can still satisfy the formula"
@@ -435,7 +450,7 @@ def register_core(reg, B4T):
         if outcome[0] != "return":
             return
         i = env.vars["i"]
-        I.eng.check(f"{cn}#ensures.returns-spec", z3.And(ML.is_b4(outcome[1]), b4val(outcome[1]) == z3.If(H(i.e), z3.IntVal(TRUE), z3.IntVal(FALSE))))
+        check2(I.eng, f"{cn}#ensures.returns-spec", z3.And(ML.is_b4(outcome[1]), b4val(outcome[1]) == z3.If(H(i.e), z3.IntVal(TRUE), z3.IntVal(FALSE))), env.vars["self"].fields["_last_index"])
 
     def replay_atomic(inputs, clause):
         from rv_ltl import Atomic
@@ -484,7 +499,7 @@ def register_core(reg, B4T):
             if outcome[0] != "return":
                 return
             i, last = env.vars["i"], env.vars["_last"]
-            I.eng.check(f"{cn}#ensures.returns-spec", z3.And(ML.is_b4(outcome[1]), b4val(outcome[1]) == spec(P, i.e, last.e)))
+            check2(I.eng, f"{cn}#ensures.returns-spec", z3.And(ML.is_b4(outcome[1]), b4val(outcome[1]) == spec(P, i.e, last.e)), last)
 
         def replay(inputs, clause):
             import rv_ltl.monitor as rm
@@ -527,7 +542,7 @@ def register_core(reg, B4T):
             s = z3.IntVal(unit)
             for P in Ps[:n]:
                 s = fold(s, P.z(i.e))
-            I.eng.check(f"{cn}#ensures.returns-spec", z3.And(ML.is_b4(outcome[1]), b4val(outcome[1]) == s))
+            check2(I.eng, f"{cn}#ensures.returns-spec", z3.And(ML.is_b4(outcome[1]), b4val(outcome[1]) == s), env.vars["self"].fields["_last_index"])
 
         def replay(inputs, clause):
             import rv_ltl.monitor as rm
@@ -567,6 +582,21 @@ def _public_until(Lt, Rt, i):
     return m.evaluate().value
 
 
+def _public_premature_false():
+    """A realisation of `rhs presumably false, later truthy` with the public API: a until ((next next c) or d)."""
+    import rv_ltl
+
+    a, c, d = (rv_ltl.Atomic(identifier=x) for x in "acd")
+    m = rv_ltl.Until(a, rv_ltl.Or(rv_ltl.Next(rv_ltl.Next(c)), d)).create_monitor()
+    out = []
+    for step in (dict(a=False, c=False, d=False), dict(a=False, c=False, d=True), dict(a=False, c=True, d=False)):
+        m.update(step)
+        out.append(str(m.evaluate()))
+    if out[1] == "FALSE" and out[2] in ("TRUE", "PRESUMABLY_TRUE"):
+        return f"; public API: `a until ((next next c) or d)` on a=FFF c=FFT d=FTF gives the verdicts {out}: FALSE at step 1 although the trace satisfies the formula at step 2"
+    return ""
+
+
 def replay_until(inputs, clause):
     from rv_ltl.monitor import UntilMonitor
 
@@ -595,6 +625,8 @@ def replay_until(inputs, clause):
     if bad is None:
         return None
     txt = f"{UNTIL_TEXT}: lhs values {[NAMES[x] for x in Lt]}, rhs values {[NAMES[x] for x in Rt]}, _evaluate_at({i}) = {NAMES[v]}, reference {NAMES[s]}: {bad}"
+    if "reject now" in bad and i == 0:
+        txt += _public_premature_false()
     if all(x in (TRUE, FALSE) for x in Lt + Rt):
         pv = _public_until(Lt, Rt, i)
         txt += f"; public API: `{'next ' * i}(a until b)` on a={''.join('T' if x == TRUE else 'F' for x in Lt)} b={''.join('T' if x == TRUE else 'F' for x in Rt)} evaluates to {NAMES[pv]}"
@@ -603,28 +635,48 @@ def replay_until(inputs, clause):
 
 def register_until(reg, B4T):
     tgt = f"{MON}:UntilMonitor._evaluate_at"
-    L, R = ChildFn("lhs"), ChildFn("rhs")
+    L = ChildFn("lhs")
     M = z3.Function("minL", z3.IntSort(), z3.IntSort(), z3.IntSort())  # M(a,b) = min of lhs over [a,b), TRUE on the empty range
     a, b, t = z3.Ints("a!m b!m t!m")
     AX_DEF = [
         ("minL.empty", z3.ForAll([a], M(a, a) == TRUE)),
         ("minL.step", z3.ForAll([a, b], z3.Implies(a < b, M(a, b) == zmin(M(a, b - 1), L.z(b - 1))))),
     ]
-    AX_LEMMA = ("minL.antitone (proved by induction: UntilMonitor._evaluate_at[lemma]#lemma.minL_antitone.*)", z3.ForAll([a, b, t], z3.Implies(z3.And(a <= b, b <= t), M(a, t) <= M(a, b))))
-    spec_env = {
-        "Rv": BuiltinFn("Rv", lambda k: SV(R.z(k))),
-        "Lv": BuiltinFn("Lv", lambda k: SV(L.z(k))),
-        "minL": BuiltinFn("minL", lambda x, y: SV(M(tonum(x), tonum(y)))),
-    }
+    AX_LEMMA = [
+        ("minL.antitone (proved by induction: UntilMonitor._evaluate_at[lemma]#lemma.minL_antitone.*)", z3.ForAll([a, b, t], z3.Implies(z3.And(a <= b, b <= t), M(a, t) <= M(a, b)))),
+        ("minL.range (proved by induction: UntilMonitor._evaluate_at[lemma]#lemma.minL_range.*)", z3.ForAll([a, b], z3.Implies(a <= b, z3.And(FALSE <= M(a, b), M(a, b) <= TRUE)))),
+    ]
 
     def make(key_suffix, definite_rhs):
         key = tgt + key_suffix if key_suffix else None
         cn = short_of(tgt, key)
+        R = ChildFn("rhs", definite=definite_rhs)  # two-valued by construction in the [non-temporal rhs] variant
+        def minL_term(I, x, y):
+            """the term minL(x, y), unfolding its definition one level and recording it for the lemma instances"""
+            zx, zy = tonum(x), tonum(y)
+            term = M(zx, zy)
+            key = (zx.get_id(), zy.get_id())
+            seen = I.c11_mterms
+            if key not in seen:
+                seen[key] = (zx, zy)
+                for _, ax in AX_DEF + AX_LEMMA[1:]:  # instances of the defining axioms and of the range lemma at (x, y)
+                    I.eng.assume(z3.substitute_vars(ax.body(), *reversed([zx, zy][: ax.num_vars()])))
+            return SV(term)
+
+        spec_env = {
+            "Rv": BuiltinFn("Rv", lambda k: SV(R.z(k))),
+            "Lv": BuiltinFn("Lv", lambda k: SV(L.z(k))),
+            "minL": SpecFn(minL_term, "minL", needs_interp=True),
+        }
 
         def setup(I, env):
             eng = I.eng
-            for n, ax in AX_DEF + [AX_LEMMA]:
-                eng.add_axiom(n, ax)
+            # proofs here take milliseconds; the obligations that are refuted on the installed rv_ltl (known findings) have
+            # quantified hypotheses, on which z3 answers `unknown` only after its whole budget: keep that budget small
+            eng.timeout_ms = min(eng.timeout_ms, 4000)
+            # minL is used through instances only (definition unfolded where a term is built; lemma instances over the terms
+            # present at the end): no quantified axiom in scope, so refuted obligations get genuine models from z3
+            I.c11_mterms = {}
             last, i = sym_pos(eng)
             eng.input_syms.append(("lhs", ChildTableT(L, last), L))
             eng.input_syms.append(("rhs", ChildTableT(R, last), R))
@@ -648,6 +700,13 @@ def register_until(reg, B4T):
             w = _z(rhs_calls[-1]) if rhs_calls else None  # the last position at which rhs was consulted (ghost: call log)
             kk = eng.fresh_int("kk").e  # an arbitrary position of the trace suffix
             inside = z3.And(i <= kk, kk <= last)
+            for y in [kk, last + 1] + ([w] if w is not None else []):
+                minL_term(I, SV(i), SV(y))
+            terms = list(I.c11_mterms.values())
+            for x1, y1 in terms:  # instances of the antitone lemma over all pairs of minL terms on this path
+                for x2, y2 in terms:
+                    if y1.get_id() != y2.get_id():
+                        eng.assume(z3.Implies(z3.And(x1 == x2, x1 <= y1, y1 <= y2), M(x2, y2) <= M(x1, y1)))
 
             def at_witness(pred):
                 return z3.BoolVal(False) if w is None else z3.And(i <= w, w <= last, pred(R.z(w), M(i, w)))
@@ -660,17 +719,14 @@ def register_until(reg, B4T):
                 "TRUE_only_if_spec_TRUE": z3.Implies(v == TRUE, at_witness(lambda r, m: z3.And(r == TRUE, m == TRUE))),
                 "FALSE_only_if_spec_FALSE": z3.Implies(v == FALSE, z3.And(z3.Implies(inside, z3.Or(R.z(kk) == FALSE, M(i, kk) == FALSE)), M(i, last + 1) == FALSE)),
             }
+            for x in range(0, SMALL + 2):  # the definition of minL, completely unfolded on short traces (exact small models)
+                for y in range(x, SMALL + 3):
+                    minL_term(I, x, y)
             for nm, g in goals.items():
-                if definite_rhs:
-                    if nm != "FALSE_only_if_spec_FALSE":
-                        continue
-                    tt = z3.Int("t!def")
-                    hyp = z3.ForAll([tt], z3.Or(R.z(tt) == TRUE, R.z(tt) == FALSE))
-                    eng.check(f"{cn}#ensures.FALSE_only_if_spec_FALSE_given_non_temporal_rhs[i==0]", z3.Implies(z3.And(hyp, i == 0), g))
-                    eng.check(f"{cn}#ensures.FALSE_only_if_spec_FALSE_given_non_temporal_rhs[i>0]", z3.Implies(z3.And(hyp, i > 0), g))
+                if definite_rhs and nm != "FALSE_only_if_spec_FALSE":
                     continue
-                eng.check(f"{cn}#ensures.{nm}[i==0]", z3.Implies(i == 0, g))
-                eng.check(f"{cn}#ensures.{nm}[i>0]", z3.Implies(i > 0, g))
+                check2(eng, f"{cn}#ensures.{nm}[i==0]", z3.Implies(i == 0, g), last)
+                check2(eng, f"{cn}#ensures.{nm}[i>0]", z3.Implies(i > 0, g), last)
 
         loops = {
             1: dict(invariants={"no_truthy_rhs_before_k": "forall(t, i, i + _i, Rv(t) < 3)"}, modifies={"result": B4T, "v": None, "u": None, "j": None}),
@@ -699,5 +755,445 @@ def register_until(reg, B4T):
         x, y, s = (eng.fresh_int(n).e for n in ("a", "b", "t"))
         eng.check(f"{cnl}#lemma.minL_antitone.base", z3.Implies(x <= y, M(x, y) <= M(x, y)))
         eng.check(f"{cnl}#lemma.minL_antitone.step", z3.Implies(z3.And(x <= y, y <= s, M(x, s) <= M(x, y)), M(x, s + 1) <= M(x, y)))
+        eng.check(f"{cnl}#lemma.minL_range.base", z3.And(FALSE <= M(x, x), M(x, x) <= TRUE))
+        eng.check(f"{cnl}#lemma.minL_range.step", z3.Implies(z3.And(x <= y, FALSE <= M(x, y), M(x, y) <= TRUE), z3.And(FALSE <= M(x, y + 1), M(x, y + 1) <= TRUE)))
 
     reg.add(C.Contract(tgt, params=dict(self=C.Const(None), i=C.Const(None)), setup=setup_lemma, post=post_lemma, properties=("C11",)), key=key)
+
+
+# ================================================================================================ (3) Monitor.update / AtomicMonitor._update_internal
+def register_update(reg, B4T):
+    # ---------------------------------------------------------------- AtomicMonitor._update_internal
+    tgt = f"{MON}:AtomicMonitor._update_internal"
+    cn = short_of(tgt)
+
+    def setup_ui(I, env):
+        eng = I.eng
+        n = eng.choose(3, "history length")
+        hist = PList([eng.fresh_bool(f"h{k}") for k in range(n)])
+        prop = PObj("AtomicProposition", tag="ap")
+        other = PObj("AtomicProposition", tag="other")
+        v = eng.fresh_bool("v")
+        eng.input_syms.append(("v", C.Bool(), v))
+        m = PDict([(other, eng.fresh_bool("v_other")), (prop, v)])
+        env.vars["self"] = mon_obj("AtomicMonitor", n - 1, _history=hist, proposition=prop)
+        env.vars["m"] = m
+        env.vars["_old_hist"] = list(hist.items)
+        env.vars["_v"] = v
+
+    def post_ui(I, env, outcome):
+        eng = I.eng
+        if outcome[0] != "return":
+            return
+        self = env.vars["self"]
+        old = env.vars["_old_hist"]
+        new = self.fields["_history"].items
+        eng.check(f"{cn}#ensures.last_index_incremented", self.fields["_last_index"] == len(old))
+        eng.check(f"{cn}#ensures.history_has_one_entry_per_step", len(new) == len(old) + 1 and all(a is b for a, b in zip(old, new)))
+        if len(new) == len(old) + 1:
+            eng.check(f"{cn}#ensures.appended_value_is_the_value_of_its_own_proposition", _z(new[-1]) == _z(env.vars["_v"]))
+
+    def replay_ui(inputs, clause):
+        from rv_ltl import Atomic
+
+        for hist in ([], [True], [False, True]):
+            for v in (bool(inputs.get("v", True)), True, False):
+                p, q = Atomic(identifier="p"), Atomic(identifier="q")
+                m = p.create_monitor()
+                for b in hist:
+                    m._update_internal({p: b, q: not b})
+                m._update_internal({q: not v, p: v})
+                if m._history != hist + [v] or m._last_index != len(hist):
+                    return f"AtomicMonitor with history {hist} updated with {v}: history {m._history}, _last_index {m._last_index}"
+        return None
+
+    reg.add(
+        C.Contract(
+            tgt,
+            params=dict(self=C.Const(None), m=C.Const(None)),
+            setup=setup_ui,
+            post=post_ui,
+            inline=["Monitor._update_internal"],
+            replay=replay_ui,
+            bounded=True,
+            note="history of length 0..2 (contents symbolic); the step value is a bool -- rv_ltl's documented precondition (Step = Dict[..., bool]); "
+            "None would be taken for `missing` and skipped (Scenic's side of that precondition is an obligation of PropositionMonitor.update)",
+            properties=("C11",),
+        )
+    )
+
+    # ---------------------------------------------------------------- Monitor.update on a concrete tree
+    tgt = f"{MON}:Monitor.update"
+    cn2 = short_of(tgt)
+    SHAPE = ("until", ("and", ("atom", "a"), ("not", ("atom", "b"))), ("next", ("atom", "a")))
+    holder = {}
+
+    def setup_up(I, env):
+        eng = I.eng
+        with driver_frame(I, holder["c"]):
+            props = {x: I.instantiate(repo_class(f"{PROP}:Atomic"), [], dict(identifier=x)) for x in atoms_of(SHAPE)}
+            mon = build_monitor(I, SHAPE, props)
+            prior = eng.choose(2, "earlier updates")
+            for k in range(prior):
+                step = PDict([(x, eng.fresh_bool(f"{x}@{k}")) for x in props])
+                I.call_function(I.find_method(mon.cls, "update"), [mon, step], {})
+        mode = eng.choose(3, "keys: identifiers / instances / b missing")
+        vals = {x: eng.fresh_bool(f"{x}@now") for x in props}
+        for x in props:
+            eng.input_syms.append((x, C.Bool(), vals[x]))
+        if mode == 0:
+            step = PDict([(x, vals[x]) for x in props])
+        elif mode == 1:
+            step = PDict([(props[x], vals[x]) for x in props])
+        else:
+            step = PDict([("a", vals["a"]), ("unrelated", eng.fresh_bool("unrelated"))])
+        nodes = all_nodes(mon)
+        env.vars.update(self=mon, step=step, _mode=mode, _vals=vals, _props=props, _nodes=nodes)
+        env.vars["_before"] = [(nd, nd.fields["_last_index"], list(nd.fields["_history"].items) if "_history" in nd.fields else None) for nd in nodes]
+
+    def post_up(I, env, outcome):
+        eng = I.eng
+        mode, vals, props = env.vars["_mode"], env.vars["_vals"], env.vars["_props"]
+        before = env.vars["_before"]
+        if mode == 2:
+            ok = outcome[0] == "raise" and getattr(outcome[1].cls, "name", "") == "MissingAtomicsException"
+            eng.check(f"{cn2}#raises.MissingAtomicsException_iff_an_atom_has_no_value", ok)
+            eng.check(f"{cn2}#ensures.nothing_updated_when_rejected", all(nd.fields["_last_index"] == li and (h is None or len(nd.fields["_history"].items) == len(h)) for nd, li, h in before))
+            return
+        eng.check(f"{cn2}#raises.MissingAtomicsException_iff_an_atom_has_no_value", outcome[0] == "return")
+        if outcome[0] != "return":
+            return
+        eng.check(f"{cn2}#ensures.every_node_advanced_exactly_one_step", all(nd.fields["_last_index"] == li + 1 for nd, li, h in before))
+        for nd, li, h in before:
+            if h is None:
+                continue
+            new = nd.fields["_history"].items
+            name = [x for x, p in props.items() if p is nd.fields["proposition"]][0]
+            eng.check(f"{cn2}#ensures.atomic_history_gets_current_value_of_its_proposition", len(new) == len(h) + 1 and new[-1] is vals[name] and len(new) == nd.fields["_last_index"] + 1)
+
+    def replay_up(inputs, clause):
+        import rv_ltl
+
+        a, b = rv_ltl.Atomic(identifier="a"), rv_ltl.Atomic(identifier="b")
+        for by_instance in (False, True):
+            m = rv_ltl.Until(rv_ltl.And(a, rv_ltl.Not(b)), rv_ltl.Next(a)).create_monitor()
+            va, vb = bool(inputs.get("a", True)), bool(inputs.get("b", False))
+            m.update({a: va, b: vb} if by_instance else {"a": va, "b": vb})
+            nodes = m._flatten()
+            if any(n._last_index != 0 for n in nodes):
+                return f"after one update the nodes have _last_index {[n._last_index for n in nodes]}"
+            for n in nodes:
+                if hasattr(n, "_history") and n._history != [va if n.proposition is a else vb]:
+                    return f"atomic monitor of {n.proposition.identifier} has history {n._history} after update a={va} b={vb}"
+            try:
+                m.update({"a": True})
+                return "update without a value for b did not raise MissingAtomicsException"
+            except rv_ltl.MissingAtomicsException:
+                pass
+            if any(n._last_index != 0 for n in nodes):
+                return "a rejected update advanced some node"
+        return None
+
+    holder["c"] = C.Contract(
+        tgt,
+        params=dict(self=C.Const(None), step=C.Const(None)),
+        setup=setup_up,
+        post=post_up,
+        raises=[C.Raises("MissingAtomicsException", mode="may")],
+        inline_all=True,
+        replay=replay_up,
+        bounded=True,
+        note=f"one concrete tree `{show(SHAPE)}` (atom a occurs twice: two atomic monitors of one proposition), 0 or 1 earlier updates, values symbolic",
+        properties=("C11",),
+    )
+    reg.add(holder["c"])
+
+
+def build_monitor(I, f, props):
+    """real rv_ltl proposition for formula f (real constructors), then the real create_monitor"""
+    p = build_prop(I, f, props)
+    return I.call_function(I.find_method(p.cls, "create_monitor"), [p], {})
+
+
+PROP_CLASS = {"not": "Not", "and": "And", "or": "Or", "implies": "Implies", "next": "Next", "always": "Always", "eventually": "Eventually", "until": "Until"}
+
+
+def build_prop(I, f, props):
+    if f[0] == "atom":
+        return props[f[1]]
+    return I.instantiate(repo_class(f"{PROP}:{PROP_CLASS[f[0]]}"), [build_prop(I, g, props) for g in f[1:]], {})
+
+
+def all_nodes(mon):
+    out = []
+
+    def rec(m):
+        if any(m is x for x in out):
+            return
+        out.append(m)
+        for fld in ("op", "lhs", "rhs"):
+            if isinstance(m.fields.get(fld), PObj) and "_last_index" in m.fields[fld].fields:
+                rec(m.fields[fld])
+        for x in m.fields.get("ops", ()):
+            rec(x)
+
+    rec(mon)
+    return out
+
+
+# ================================================================================================ (4) sugar monitors (bounded)
+SUGAR_MAXLEN = 5
+
+
+def set_last_index(mon, last):
+    for nd in all_nodes(mon):
+        if isinstance(nd.cls, str):
+            continue
+        nd.fields["_last_index"] = last
+
+
+def register_sugar(reg, B4T):
+    tgt = f"{MON}:_SyntacticSugarMonitor._evaluate_at"
+
+    def make(kind, names, spec, pyspec):
+        key = f"{tgt}[{kind}Monitor]"
+        cn = short_of(tgt, key)
+        Ps = [ChildFn(n) for n in names]
+        holder = {}
+
+        def setup(I, env):
+            eng = I.eng
+            last = eng.choose(SUGAR_MAXLEN, "trace length") # last index 0..SUGAR_MAXLEN-1
+            i = eng.choose(last + 1, "position")
+            eng.input_syms.append(("last", C.Const(last), last))
+            eng.input_syms.append(("i", C.Const(i), i))
+            kids = []
+            for P in Ps:
+                eng.input_syms.append((P.name, ChildTableT(P, last), P))
+                kids.append(child_monitor(I, P, last, cn))
+            with driver_frame(I, holder["c"]):
+                mon = I.instantiate(repo_class(f"{MON}:{kind}Monitor"), kids, {})  # the real constructor builds the desugared tree
+            set_last_index(mon, last)  # class invariant established by Monitor.update: every node has seen the same number of steps
+            env.vars.update(self=mon, i=i, _last=last)
+
+        def post(I, env, outcome):
+            eng = I.eng
+            if outcome[0] != "return":
+                return
+            i, last = env.vars["i"], env.vars["_last"]
+            ok = ML.is_b4(outcome[1])
+            eng.check(f"{cn}#ensures.returns_a_B4_member", ok)
+            if not ok:
+                return
+            v = b4val(outcome[1])
+            tabs = [[P.z(k) for k in range(i, last + 1)] for P in Ps]
+            s = spec(*tabs)
+            for nm, g in refines(v, s).items():
+                eng.check(f"{cn}#ensures.{nm}", g)
+            if kind == "Implies":
+                eng.check(f"{cn}#ensures.returns-spec", v == s)
+            if kind == "Always":
+                P = Ps[0]
+                two_valued = z3.And(*[z3.Or(x == TRUE, x == FALSE) for x in tabs[0]])
+                some_false = z3.Or(*[x == FALSE for x in tabs[0]])
+                eng.check(f"{cn}#ensures.false_non_temporal_operand_rejected_at_once", z3.Implies(z3.And(two_valued, some_false), v == FALSE))
+
+        def replay(inputs, clause):
+            import rv_ltl.monitor as rm
+
+            last, i = int(inputs["last"]), int(inputs["i"])
+            tabs = _tables(inputs, names, last)
+            m = getattr(rm, kind + "Monitor")(*[_scripted(tabs[n]) for n in names])
+            for nd in m._flatten():
+                nd._last_index = last
+            v = m._evaluate_at(i).value
+            s = pyspec(*[tabs[n][i:] for n in names])
+            txt = _py_refine_violation(v, s, clause)
+            key_ = clause_key(clause)
+            if txt is None and kind == "Always" and key_ in ("*", "false_non_temporal_operand_rejected_at_once"):
+                t = tabs[names[0]][i:]
+                if all(x in (TRUE, FALSE) for x in t) and FALSE in t and v != FALSE:
+                    txt = f"verdict {NAMES[v]} although the (two-valued) operand is false at some step"
+            return None if txt is None else f"{kind}Monitor over operand values {[[NAMES[x] for x in tabs[n]] for n in names]} at position {i}: {txt}"
+
+        holder["c"] = C.Contract(
+            tgt,
+            params=dict(self=C.Const(None), i=C.Const(None)),
+            setup=setup,
+            post=post,
+            inline_all=True,
+            replay=replay,
+            bounded=True,
+            note=f"real {kind}Monitor constructor + real evaluation of the desugared tree; traces of length <= {SUGAR_MAXLEN}, every position, operand values symbolic (all 4^n assignments)",
+            properties=("C11",),
+        )
+        reg.add(holder["c"], key=key)
+
+    T = lambda n: [z3.IntVal(TRUE)] * n
+    make("Eventually", ["op"], lambda P: until4(T(len(P)), P), lambda P: _py_until4([TRUE] * len(P), P))
+    make("Always", ["op"], lambda P: 5 - until4(T(len(P)), [5 - x for x in P]), lambda P: 5 - _py_until4([TRUE] * len(P), [5 - x for x in P]))
+    make("Implies", ["lhs", "rhs"], lambda A, B: zmax(5 - A[0], B[0]), lambda A, B: max(5 - A[0], B[0]))
+
+
+# ================================================================================================ (5) end to end on the bounded trace space
+E2E_N = 4  # trace lengths 1..E2E_N; every prefix is a complete trace, every longer prefix an extension
+UN = ("not", "next", "always", "eventually")
+BIN = ("and", "or", "implies", "until")
+TEMPORAL = ("next", "always", "eventually", "until")
+
+
+def until_below_temporal(f, below=False):
+    if f[0] == "atom":
+        return False
+    if f[0] == "until" and below:
+        return True
+    return any(until_below_temporal(g, below or f[0] in TEMPORAL) for g in f[1:])
+
+
+def formula_families():
+    a, b = ("atom", "a"), ("atom", "b")
+    d1a = [(u, a) for u in UN] + [(o, a, b) for o in BIN]
+    d1b = [(u, b) for u in UN] + [(o, b, a) for o in BIN]
+    depth1 = [a] + d1a
+    depth2 = [(u, x) for u in UN for x in d1a]
+    depth2 += [(o, x, y) for o in BIN for x in d1a for y in [b] + d1b[:4]]
+    depth2 += [(o, y, x) for o in BIN for x in d1a for y in [b]]
+    seen, uniq = set(), []
+    for f in depth1 + depth2:
+        if f not in seen:
+            seen.add(f)
+            uniq.append(f)
+    plain = [f for f in uniq if not until_below_temporal(f)]
+    nested = [f for f in uniq if until_below_temporal(f)]
+    c, d = ("atom", "c"), ("atom", "d")
+    premature = [("until", a, ("or", ("next", ("next", c)), d)), ("not", ("until", a, ("or", ("next", ("next", c)), d)))]
+    return plain, nested, premature
+
+
+def py_sat(f, w, i, n):
+    op = f[0]
+    if op == "atom":
+        return bool(w[f[1]][i])
+    if op == "not":
+        return not py_sat(f[1], w, i, n)
+    if op == "and":
+        return py_sat(f[1], w, i, n) and py_sat(f[2], w, i, n)
+    if op == "or":
+        return py_sat(f[1], w, i, n) or py_sat(f[2], w, i, n)
+    if op == "implies":
+        return (not py_sat(f[1], w, i, n)) or py_sat(f[2], w, i, n)
+    if op == "next":
+        return i + 1 < n and py_sat(f[1], w, i + 1, n)
+    if op == "always":
+        return all(py_sat(f[1], w, k, n) for k in range(i, n))
+    if op == "eventually":
+        return any(py_sat(f[1], w, k, n) for k in range(i, n))
+    if op == "until":
+        return any(py_sat(f[2], w, k, n) and all(py_sat(f[1], w, j, n) for j in range(i, k)) for k in range(i, n))
+    raise ValueError(op)
+
+
+def real_formula(f, atoms):
+    import rv_ltl
+
+    if f[0] == "atom":
+        return atoms[f[1]]
+    return getattr(rv_ltl, PROP_CLASS[f[0]])(*[real_formula(g, atoms) for g in f[1:]])
+
+
+def replay_e2e(inputs, clause):
+    """the real rv_ltl (public API) on the formula and trace of the counter-model, against the independent evaluator"""
+    import itertools as it
+
+    import rv_ltl
+
+    f = ast.literal_eval(inputs["formula"])
+    names = atoms_of(f)
+    n = E2E_N
+    w = {x: [bool(v) for v in inputs.get(x, [])][:n] for x in names}
+    for x in names:
+        w[x] += [False] * (n - len(w[x]))
+    atoms = {x: rv_ltl.Atomic(identifier=x) for x in names}
+    m = real_formula(f, atoms).create_monitor()
+    key = clause_key(clause)
+    tr = lambda upto: " ".join(f"{x}={''.join('T' if v else 'F' for v in w[x][:upto])}" for x in names)
+    for t in range(n):
+        m.update({x: w[x][t] for x in names})
+        v = m.evaluate().value
+        if key in ("*", "end_exact") and (v >= PT) != py_sat(f, w, 0, t + 1):
+            return f"`{show(f)}` on the trace {tr(t + 1)}: verdict {NAMES[v]}, but the trace {'satisfies' if py_sat(f, w, 0, t + 1) else 'violates'} the formula (finite-trace semantics, strong next/until)"
+        if key in ("*", "early_rejection_sound") and v == FALSE:
+            for ext in range(t + 1, n + 1):
+                if py_sat(f, w, 0, ext):
+                    return f"`{show(f)}`: verdict FALSE (simulation rejected) after the prefix {tr(t + 1)}, but the continuation {tr(ext)} satisfies the formula"
+    return None
+
+
+def register_end_to_end(reg, B4T):
+    tgt = f"{MON}:Monitor.evaluate"
+    plain, nested, premature = formula_families()
+
+    def make(tag, formulas, note):
+        key = f"{tgt}[{tag}]"
+        cn = short_of(tgt, key)
+        holder = {}
+
+        def setup(I, env):
+            eng = I.eng
+            f = formulas[eng.choose(len(formulas), "formula")]
+            eng.input_syms.append(("formula", C.Const(repr(f)), repr(f)))
+            names = atoms_of(f)
+            w = {x: [eng.fresh_bool(f"{x}{t}") for t in range(E2E_N)] for x in names}
+            for x in names:
+                eng.input_syms.append((x, C.ListOf(C.Bool(), E2E_N), PList(w[x])))
+            verdicts = []
+            with driver_frame(I, holder["c"]):
+                props = {x: I.instantiate(repo_class(f"{PROP}:Atomic"), [], dict(identifier=x)) for x in names}
+                mon = build_monitor(I, f, props)
+                upd, ev = I.find_method(mon.cls, "update"), I.find_method(mon.cls, "evaluate")
+                for t in range(E2E_N):
+                    I.call_function(upd, [mon, PDict([(x, w[x][t]) for x in names])], {})
+                    if t < E2E_N - 1:
+                        verdicts.append(I.call_function(ev, [mon], {}))
+            env.vars.update(self=mon, _f=f, _w=w, _verdicts=verdicts)
+
+        def post(I, env, outcome):
+            eng = I.eng
+            if outcome[0] != "return":
+                return
+            f, w = env.vars["_f"], env.vars["_w"]
+            verdicts = env.vars["_verdicts"] + [outcome[1]]
+            for t, vd in enumerate(verdicts):
+                n = t + 1
+                if not ML.is_b4(vd):
+                    eng.check(f"{cn}#ensures.returns_a_B4_member", False)
+                    continue
+                v = b4val(vd)
+                eng.check(f"{cn}#ensures.end_exact", (v >= PT) == sat(f, w, 0, n))
+                eng.check(f"{cn}#ensures.early_rejection_sound", z3.Implies(v == FALSE, z3.And(*[z3.Not(sat(f, w, 0, m)) for m in range(n, E2E_N + 1)])))
+                # the reference semantics used by the per-class contracts, validated against `sat` on the same space
+                s = sem4(f, w, 0, n)
+                eng.check(f"{cn}#lemma.sem4_truthy_iff_sat", (s >= PT) == sat(f, w, 0, n))
+                eng.check(f"{cn}#lemma.sem4_FALSE_only_if_no_extension_satisfies", z3.Implies(s == FALSE, z3.And(*[z3.Not(sat(f, w, 0, m)) for m in range(n, E2E_N + 1)])))
+                eng.check(f"{cn}#lemma.sem4_TRUE_only_if_every_extension_satisfies", z3.Implies(s == TRUE, z3.And(*[sat(f, w, 0, m) for m in range(n, E2E_N + 1)])))
+
+        holder["c"] = C.Contract(
+            tgt,
+            params=dict(self=C.Const(None)),
+            setup=setup,
+            post=post,
+            inline_all=True,
+            replay=replay_e2e,
+            bounded=True,
+            note=f"{len(formulas)} formulas ({note}); all traces of length <= {E2E_N} over the atoms (symbolic truth values: every assignment), every prefix checked as a complete "
+            f"trace and against all its extensions up to length {E2E_N}; real constructors, create_monitor, update and evaluate interpreted",
+            properties=("C11",),
+        )
+        reg.add(holder["c"], key=key)
+
+    CH = 12
+    for k in range(0, len(plain), CH):
+        make(f"until only at position 0, formulas {k}-{min(k + CH, len(plain)) - 1}", plain[k : k + CH], "depth <= 2 over a, b; `until` never below next/always/eventually/until")
+    for k in range(0, len(nested), CH):
+        make(f"until below a temporal operator, formulas {k}-{min(k + CH, len(nested)) - 1}", nested[k : k + CH], "depth <= 2 over a, b; an `until` below next/always/eventually/until, i.e. evaluated at positions > 0")
+    make("temporal rhs of until", premature, "`a until ((next next c) or d)` and its negation")
